@@ -157,16 +157,15 @@ namespace nmtools::utl
 
         /*constexpr*/ maybe& operator=(const maybe& other)
         {
+            // NOTE: let either handle the lifetime of the (non-trivial) value:
+            // assign when a value is held, copy-construct otherwise, destroy it when becoming nothing
+            if (this == &other) {
+                return *this;
+            }
             if (other.has_value()) {
-                if constexpr (meta::is_copy_assignable_v<T>) {
-                    this->left = other.left;
-                } else {
-                    new(&this->left) T(other.left);
-                }
-                this->tag  = base::LEFT;
+                base::operator=(other.left);
             } else {
-                this->right = other.right;
-                this->tag  = base::RIGHT;
+                base::operator=(other.right);
             }
             return *this;
         }
